@@ -1,1 +1,9 @@
-PARTS = []
+"""C14 tree part: pruning / masking / nullify on LabelledTreeCooccurrenceVectorizer through Tree.tla."""
+from . import c15
+
+
+def part_tree(ctx):
+    c15.run_instances(ctx, c15.instances(ctx, mask_only=True), "tree_mask")
+
+
+PARTS = [("tree", part_tree)]
